@@ -799,6 +799,12 @@ def resetTo (key : Nat) (r : Run) : Run :=
     else r
   | (_, []) => r
 
+/-- the key `reset_branch_base` is called with after a `digest`: the cutoff on `NeedsMerge`, else the next changed key -/
+def keyOf (res : DigestResult) (k : Nat) : Nat :=
+  match res with
+  | .needsMerge c => c
+  | .finished => k
+
 /-- `while !branch_updater.is_in_scope(&key) { digest; reset_branch_base }` -/
 def scopeLoop (kf : KF) (key : Nat) : (fuel : Nat) → Run → Option Run
   | 0, _ => none
@@ -807,8 +813,7 @@ def scopeLoop (kf : KF) (key : Nat) : (fuel : Nat) → Run → Option Run
     match digest kf r.st with
     | none => none
     | some (st', nodes, res) =>
-      let k := match res with | .needsMerge c => c | .finished => key
-      scopeLoop kf key fuel (resetTo k { r with st := st', out := r.out ++ nodes.map .new })
+      scopeLoop kf key fuel (resetTo (keyOf res key) { r with st := st', out := r.out ++ nodes.map .new })
 
 def runChanges (kf : KF) : List (Nat × Option Nat) → Run → Option Run
   | [], r => some r
